@@ -348,8 +348,11 @@ func run(in input, r *rand.Rand) emit.Case {
 	}
 	sig := "pubsub-batching"
 	nrecv := 0
-	var accepted, emitted [][]byte
-	anyDrop := false
+	// the driver's own bookkeeping of what must come out, used only to name the failure class:
+	// cur = accepted since the last observed flush; expected = messages of the batches enqueued
+	var cur, expected, emitted [][]byte
+	qPrev := 0
+	timerMissed := false
 	for i, ob := range obs {
 		recv := "(@None (list N))"
 		oo := obsOut{Code: ob.code, QLen: ob.qlen, Drop: ob.drop}
@@ -368,19 +371,32 @@ func run(in input, r *rand.Rand) emit.Case {
 				emitted = append(emitted, ms...)
 			}
 		}
-		if all[i].t == "s" && ob.code == codeOK {
-			accepted = append(accepted, all[i].m)
+		flushed := all[i].t != "r" && (ob.drop || ob.qlen > qPrev)
+		if flushed {
+			if !ob.drop {
+				expected = append(expected, cur...)
+			}
+			cur = nil
 		}
-		anyDrop = anyDrop || ob.drop
+		if all[i].t == "s" && ob.code == codeOK {
+			cur = append(cur, all[i].m)
+		}
+		if all[i].t == "t" && !flushed && len(cur) > 0 {
+			timerMissed = true
+		}
+		qPrev = ob.qlen
 		coqObs[i] = emit.App("mkobs", emit.N(uint64(ob.code)), emit.N(uint64(ob.qlen)), emit.Bool(ob.drop), recv)
 		m.Obs = append(m.Obs, oo)
 	}
-	if sig == "pubsub-batching" && !anyDrop && !hang {
-		same := len(accepted) == len(emitted)
-		for i := 0; same && i < len(accepted); i++ {
-			same = string(accepted[i]) == string(emitted[i])
+	if sig == "pubsub-batching" && !hang {
+		same := len(expected) == len(emitted)
+		for i := 0; same && i < len(expected); i++ {
+			same = string(expected[i]) == string(emitted[i])
 		}
-		if !same {
+		switch {
+		case timerMissed:
+			sig = "timer-did-not-flush-pending-messages"
+		case !same:
 			sig = "messages-lost-duplicated-or-reordered"
 		}
 	}
